@@ -663,12 +663,13 @@ func (d *driver) start(st *Step) *checkRun {
 		// the URL of this request, should the service later send the browser back to it
 		ev["url"] = d.rec.sym("url", "https://"+appHost+path)
 	}
-	headers := map[string]string{chainHdr: f.Name, ":authority": appHost}
+	// the request id is chosen by the client (x-request-id) and is not a secret: every request of a scenario carries the same one
+	headers := map[string]string{chainHdr: f.Name, ":authority": appHost, "x-request-id": "5f1c7b1e-0000-4000-8000-verifverif00"}
 	if cookieVal != "" {
 		headers["cookie"] = "theme=dark; " + cname + "=" + cookieVal + "; other=1"
 	}
 	req := &envoy.CheckRequest{Attributes: &envoy.AttributeContext{Request: &envoy.AttributeContext_Request{
-		Http: &envoy.AttributeContext_HttpRequest{Id: c.id, Method: "GET", Scheme: "https", Host: appHost, Path: path, Headers: headers, Protocol: "HTTP/1.1"},
+		Http: &envoy.AttributeContext_HttpRequest{Id: "42", Method: "GET", Scheme: "https", Host: appHost, Path: path, Headers: headers, Protocol: "HTTP/1.1"},
 	}}}
 	if st.Shape != "" {
 		req = shapeRequest(st.Shape, req, cname)
